@@ -34,6 +34,14 @@ HEADERS = {
 HEADERS["all"] = ("".join(h for h, _ in HEADERS.values()),
                   ["--generate-cstr", "--flexarray-dst", "--use-core", "--override-abi", "cu|cu_cb|cu_field=C-unwind", "--override-abi", "ef_cb|ef_param=efiapi"])
 
+# inputs on the far side of size thresholds, and targets whose DEFAULT calling conventions are gated ones (kept out of "all")
+HEADERS["bigrec"] = ("struct Big { char pad[1048577]; int after; long tail; };\nunion BigU { char pad[2097153]; int i; };\nstruct Small { char c; int i; };\n", [])
+HEADERS["vt-win32"] = ("class V { public: virtual void f(); virtual int g(int); int x; };\nclass W { public: void m(int); static int s(); int y; };\n"
+                       "void __stdcall sc(int); void __fastcall fc(int); void __vectorcall vc2(int);\n",
+                       ["--experimental", "--vtable-generation", "--", "-x", "c++", "--target=i686-pc-windows-msvc"])
+HEADERS["win64-sysv"] = ("void __attribute__((ms_abi)) m1(int); void __attribute__((sysv_abi)) s1(int); typedef void (__attribute__((ms_abi)) *mcb)(int);\n"
+                         "struct HoldsM { mcb f; };\n", ["--", "--target=x86_64-pc-windows-msvc"])
+
 # construct -> (regex on whitespace-free token text, minimal minor version, minimal edition or None)
 # Source: Rust release notes (stabilisation versions), NOT bindgen/features.rs.
 CONSTRUCTS = {
@@ -104,12 +112,16 @@ def newest_known_from_source():
 
 
 def job_args(hpath, flags, v, ed):
-    a = [hpath, "--formatter", "none"] + list(flags)
+    flags = list(flags)
+    tail = []
+    if "--" in flags:   # clang arguments of the trigger header stay last
+        flags, tail = flags[:flags.index("--")], flags[flags.index("--"):]
+    a = [hpath, "--formatter", "none"] + flags
     if v is not None:
         a += ["--rust-target", vname(v)]
     if ed is not None:
         a += ["--rust-edition", ed]
-    return a
+    return a + tail
 
 
 def judge(ck, key, res, v, ed):
@@ -157,7 +169,7 @@ def run(ck, only=None):
     wd = ck.wd
     versions = [50] + list(range(51, 87)) + [NIGHTLY]
     editions = [None, "2018", "2021", "2024"]
-    hnames = list(HEADERS) if ck.tier == "thorough" else ["all", "corestr", "abi", "abiptr", "str"]
+    hnames = list(HEADERS) if ck.tier == "thorough" else ["all", "corestr", "abi", "abiptr", "str", "bigrec", "vt-win32"]
     jobs, meta = [], {}
     for hn in hnames:
         src, flags = HEADERS[hn]
@@ -231,7 +243,7 @@ def run(ck, only=None):
     # rustc 1.95 must accept every stable output (nightly-only constructs excluded)
     comp = []
     for (hn, v, ed), t in texts.items():
-        if v == NIGHTLY or hn in ("abi", "abiptr") or (ck.tier == "quick" and hn != "all"):  # thiscall/efiapi/vectorcall do not exist on the host target
+        if v == NIGHTLY or hn in ("abi", "abiptr", "vt-win32", "win64-sysv") or (ck.tier == "quick" and hn != "all"):  # thiscall/efiapi/vectorcall do not exist on the host target
             continue
         if ck.tier == "quick" and v not in (51, 58, 59, 63, 64, 70, 76, 77, 81, 82, 85, 86):
             continue
